@@ -568,7 +568,15 @@ func (w *worker[T, JobType]) start() error {
 	w.lifecycle.Lock()
 	defer w.lifecycle.Unlock()
 
-	return w.startRun()
+	err := w.startRun()
+
+	if err != nil {
+		// the worker has been started before: no new run, but the queue bound just now may already
+		// hold entries (a persistent or distributed queue), and the event loop may be asleep
+		w.notifyToPullNextJobs()
+	}
+
+	return err
 }
 
 // startRun starts a run; the caller holds the lifecycle lock.
